@@ -3,7 +3,7 @@ known findings, verdict discipline, evidence.  Python 3 standard library only.""
 import json, os, re, shutil, subprocess, sys, time, hashlib
 from concurrent.futures import ThreadPoolExecutor
 
-VERIF = '/verif'
+VERIF = os.path.dirname(os.path.dirname(os.path.abspath(__file__)))   # /verif, or a snapshot of it (vp run)
 REPO = os.environ.get('VERIF_REPO', '/repo')
 SPEC = os.path.join(VERIF, 'spec')
 OUT = os.path.join(VERIF, 'out')
